@@ -30,7 +30,7 @@ def fs(x):
 def gen(rng, tier, k):
     from rv.ref.bms import LAYOUTS
 
-    cls = rng.choice(["grid", "grid", "grid", "big_lcm", "off_grid", "many_tempo", "float_bpm", "from_read", "unsorted"])
+    cls = rng.choice(["grid", "grid", "grid", "big_lcm", "off_grid", "many_tempo", "float_bpm", "from_read", "unsorted", "relabelled_tempo", "write_edit_write"])
     if cls == "from_read":
         from rv.gen import bms as gbms
 
@@ -39,7 +39,8 @@ def gen(rng, tier, k):
     layout = rng.choice(list(LAYOUTS))
     cols = sorted(set(LAYOUTS[layout].values()))
     n_meas = rng.randint(1, 6)
-    n_t = {"many_tempo": rng.choice([10, 25, 40]), "unsorted": rng.choice([2, 3, 5])}.get(cls, rng.choice([1, 1, 2, 3, 5]))
+    n_t = {"many_tempo": rng.choice([10, 25, 40]), "unsorted": rng.choice([2, 3, 5]), "relabelled_tempo": rng.choice([2, 3, 5]),
+           "write_edit_write": rng.choice([2, 3])}.get(cls, rng.choice([1, 1, 2, 3, 5]))
     if tier == "thorough" and k % 4000 == 17:
         n_t = 990  # the measure field has 3 digits: tempo points on measure lines cannot exceed 1000
     meas = sorted({0} | {rng.randint(1, min(998, max(n_meas, n_t * 2))) for _ in range(n_t - 1)}) if n_t < 900 else list(range(n_t))
@@ -111,6 +112,8 @@ def build(case):
     if case["cls"] == "unsorted" and len(rows_) > 1:
         rows_ = rows_[1:] + rows_[:1]  # tempo rows not stored in time order (e.g. a point appended later)
     m.bpms = BMSBpmList(rows_)
+    if case["cls"] == "relabelled_tempo" and len(rows_) > 1:
+        m.bpms = BMSBpmList(rows_[1:] + rows_[:1]).sorted()  # time order, but row labels 1..n-1, 0 (as after a filter or sorted())
     hits, holds = [], []
     for c, b0, b1, s in case["objects"]:
         t0 = float(tl.ms_of_beat(F(b0)))
@@ -147,6 +150,18 @@ def run(ctx, case):
         m.write(config)
     except Exception:
         pass
+    if case["cls"] == "write_edit_write":
+        # the same chart object, tempo doubled in place (times halved), written again
+        try:
+            for tl in m.objs.values():
+                if len(tl):
+                    tl.offset /= 2
+            if len(m.holds):
+                m.holds.length /= 2
+            m.bpms.bpm *= 2
+            m.write(config)
+        except Exception:
+            ctx.counters["c05|edit_sequence_raised"] += 1
     if ctx.cur_k is not None and ctx.cur_k % 3 == 1:
         from rv.monitors import fileio
         fileio.check_write_file(ctx, "C05", m, args=(config,), kind="bytes")
